@@ -29,6 +29,13 @@ CLAIMED = {
             "positions were drawn. A structural necessary condition; binding of the hash/Merkle scheme is assumed.",
             "rustc nightly type checker + MIR construction; the Python dominance/slice engine; hash and vector "
             "commitment binding (cryptographic)", "DESIGN.md section 4, C03"),
+    "C04": ("field-liveness over the call graph from verify (A9), guard re-verification for length / leftover checks, narrowing-cast range checks on every construction path",
+            "Decides the necessary condition that no parsed proof content is dead or silently truncated on the accepting path: "
+            "every field of the proof component structs is read on the verification path; the FRI layer count, trace query set "
+            "count, query byte length, opening-proof domains and inner blob leftovers are compared and rejected with an error; "
+            "narrowed integers are bounded on every construction path. That the remaining checks reject every altered value is "
+            "behavioural (C02/C03/C09 decide that those checks are in place).",
+            "rustc MIR; call graph with trait dispatch over-approximation", "DESIGN.md section 4, C04"),
     "C05": ("call-graph panic-site inventory from the untrusted-input entry points, discharged by guard intervals (A3), struct-field invariants (A4), callee Ok-postconditions, relational index patterns, and a reviewed table whose relied-upon guards are re-verified on every run",
             "Enumerates every panic / abort / unbounded-allocation site (MIR Assert terminators, diverging calls, may-panic std calls, "
             "allocation sizes) reachable from Proof::from_bytes, every Deserializable::read_from, the batch Merkle functions, "
@@ -38,6 +45,19 @@ CLAIMED = {
             "are outside the decided clause.",
             "rustc MIR incl. overflow/bounds Assert terminators; the may-panic table for core/alloc leaves; reviewed reasons in "
             "wfstatic/tables/panic_sites.json; user Air implementations do not panic", "DESIGN.md section 4, C05"),
+    "C06": ("effect analysis and rayon-combinator classification over the MIR of the `concurrent` build, capture analysis of closures handed to rayon, chunk-offset provenance through closure upvars, MIR diff between the two builds",
+            "Decides the schedule clause on the concurrent build: no ambient input reachable from the prover; every rayon combinator "
+            "is indexed/order-preserving except find_any in grind_query_seed whose result reaches only pow_nonce; parallel closures "
+            "capture no shared mutable state (three unsafe re-borrows reviewed and stated as assumptions); chunk offsets are index * "
+            "the value that sizes the chunks; cfg-dependent functions are exactly parallel-combinator code. Equality of parallel and "
+            "serial *values* and the async variant are not decided.",
+            "rustc MIR of both feature configurations; classification table of rayon combinators", "DESIGN.md section 4, C06"),
+    "C07": ("codec schema extraction (A6): ordered byte-level I/O events along every success path of write_into / read_from with loops collapsed and byte widths compared; length-prefix linkage; enum tag tables; constructor-vs-decoder interval inclusion (A4); writer narrowing casts",
+            "Decides writer/reader schema agreement for all 40 (Serializable, Deserializable) pairs of the workspace, that length "
+            "prefixes are the length of / size the following blob, that enum tags equal the discriminants, that every integer range "
+            "a public constructor accepts is let through by the decoder, and that writer narrowing casts are in range. Equality "
+            "of decoded values for interior inputs is behavioural and not decided.",
+            "rustc MIR; interval engine; reviewed reasons for writer casts in rules/c07.py", "DESIGN.md section 4, C07"),
     "C08": ("dispatch-table extraction (A10) on the four folding-factor dispatch sites, accepted-set extraction from constructor guards, shared-callee checks on prover and verifier layer loops",
             "Decides the dispatch/limit clause: folding factor k selects the N = k instantiation on the prover (build_layer, "
             "query_layer) and the verifier (verify_generic, read_layer_queries, get_query_values) for exactly the set "
